@@ -231,6 +231,14 @@ class Env:
         return False, None
 
     def set(self, name: str, v):
+        nl = self.vars.get("__nonlocal__")
+        if nl and name in nl:
+            e = self.parent
+            while e is not None:
+                if name in e.vars:
+                    e.vars[name] = v
+                    return
+                e = e.parent
         self.vars[name] = v
 
 
@@ -600,7 +608,9 @@ class Interp:
                 if it.optional_vars is not None:
                     self.assign(it.optional_vars, v, env)
             self.exec_block(st.body, env)
-        elif isinstance(st, (ast.Import, ast.ImportFrom, ast.Global, ast.Nonlocal)):
+        elif isinstance(st, ast.Nonlocal):
+            env.vars.setdefault("__nonlocal__", set()).update(st.names)
+        elif isinstance(st, (ast.Import, ast.ImportFrom, ast.Global)):
             raise Unsupported(f"statement {type(st).__name__}")
         else:
             raise Unsupported(f"statement {type(st).__name__}")
@@ -1128,6 +1138,11 @@ class Interp:
                     return getattr(base, attr)
             if isinstance(base, bool) and attr in _NATIVE_METHODS[int]:
                 return getattr(base, attr)
+            hook = self.ext.get("native_attr")
+            if hook is not None:
+                r = hook(base, attr)
+                if r is not NotImplemented:
+                    return r
             raise Unsupported(f"method {type(base).__name__}.{attr} is not modelled")
         if isinstance(base, Sym):
             hook = self.ext.get("sym_attr")
@@ -1141,6 +1156,9 @@ class Interp:
             if key in ("int.from_bytes", "int.to_bytes", "bytes.fromhex", "bool.__repr__", "dict.fromkeys"):
                 return getattr(base, attr)
             raise Unsupported(f"{key} is not modelled")
+        import struct as _struct
+        if isinstance(base, _struct.Struct) and attr in ("unpack", "pack", "size", "format", "unpack_from", "iter_unpack"):
+            return getattr(base, attr)
         raise Unsupported(f"attribute {attr} on {type(base).__name__}")
 
     def ev_Subscript(self, e, env):
@@ -1289,6 +1307,13 @@ class Interp:
         ok, ys = env.lookup("__yields__")
         ys.append(v)
         self.event("yield", v)
+        return None
+
+    def ev_YieldFrom(self, e, env):
+        ok, ys = env.lookup("__yields__")
+        for v in self.iterate(self.eval(e.value, env), e):
+            ys.append(v)
+            self.event("yield", v)
         return None
 
     def _comp(self, gens, env, emit):
